@@ -81,6 +81,7 @@ def VS.destroyAll (s : VS) : VS :=
 inductive Op where
   | set (i ty : Nat) (v : Int) | copy (i j : Nat) | swap (i j : Nat) | adopt (i ty : Nat) (v : Int)
   | clear (i : Nat) | surrender (i : Nat)
+  | readopt (i : Nat)      -- `p = h[i].extract_raw(); h[i].surrender(); h[i].assimilate(p)` for a heap object: the caller hands the very same object back
 deriving Repr, DecidableEq
 
 def VS.step (s : VS) : Op → VS
@@ -90,6 +91,7 @@ def VS.step (s : VS) : Op → VS
   | .adopt i ty v => if i < s.holders.length then s.adopt i ty v else s
   | .clear i => s.clear i
   | .surrender i => s.surrender i
+  | .readopt _ => s          -- ownership leaves the holder and returns to it: nothing changes
 
 /-! ### intrusive reference counting -/
 
